@@ -923,7 +923,8 @@ pub fn run_scenario(ctx: &mut Ctx, sc: &Scenario) -> Outcome {
                             }
                         }
                     });
-                    let reader_abort = reader.abort_handle();
+                    // (the peer's copy of the client's stdin stays open until the scenario ends, as it always did:
+                    // closing it from here would race with the client's next write - EPIPE or EOF - in real time)
                     let watcher = tokio::spawn(async move {
                         let mut life = life;
                         let mut b = [0u8; 8];
@@ -934,7 +935,6 @@ pub fn run_scenario(ctx: &mut Ctx, sc: &Scenario) -> Outcome {
                             }
                         }
                         CHILD_DEAD.with(|c| c.set(true));
-                        reader_abort.abort();
                     });
                     let r = play(steps, PeerIo::Local(Some(tx), pid), ps3, out3.clone(), epoch).await;
                     reader.abort();
